@@ -16,6 +16,7 @@ Definition MODULE : N := 0.    (* the erc20 module account = types.ModuleAddress
 Definition THIEF : N := 4.     (* the address hard-wired in the malicious Solidity tokens *)
 Definition ZERO : N := 5.      (* the zero address *)
 Definition DEPLOYER : N := 6.  (* deployer / minter of the externally owned tokens *)
+Definition SCRIPT : N := 7.    (* a contract that holds tokens and executes a list of calls (harness: the script contract) *)
 Definition FAR : N := 99.      (* holds the first voucher that made RegisterCoin possible *)
 Definition MAXU : Z := 2 ^ 256 - 1.
 
@@ -46,6 +47,14 @@ Inductive ucall :=
 | UMode (m : N)
 | UKill
 | UOther.
+
+(** one CALL made by the script contract inside a single Ethereum transaction *)
+Inductive bcall :=
+| BXfer (to : N) (x : Z) (catch : bool)   (* token.transfer(to, x) on THIS pair's token; [catch]: a reverting
+                                             call is tolerated (its effects and logs are discarded, the script goes on),
+                                             otherwise the whole transaction reverts.  The returned word is ignored. *)
+| BForeign (k : N) (x : Z).               (* tolerated transfer(module, x) on the token of ANOTHER registered pair [k]:
+                                             its logs carry that contract's address *)
 
 (** [None] = the call reverted.  View calls ([balance_of], [total_supply]) are
     executed without commit, so they are functions of the state; [None] there =
@@ -101,7 +110,10 @@ Inductive op :=
 | SetParams (e h : bool)
 | Recv (mint smod : bool) (esc b : N) (x : Z)   (* OnRecvPacket after the ICS-20 credit *)
 | Ack (success mint : bool) (esc b : N) (x : Z) (* OnAcknowledgementPacket after the ICS-20 refund *)
-| Timeout (mint : bool) (esc b : N) (x : Z).
+| Timeout (mint : bool) (esc b : N) (x : Z)
+| Batch (a : N) (cs : list bcall).          (* ONE signed Ethereum transaction of [a] to the script contract, which makes
+                                               the calls [cs] in order (its receipt carries the logs of all of them),
+                                               then PostTxProcessing *)
 
 Definition blocked (a : N) : bool := N.eqb a MODULE.
 (** accounts for which somebody holds a key (the harness' key holders) *)
@@ -303,6 +315,39 @@ Section Model.
       end
     end.
 
+  (** the calls of one script transaction, in order; the token sees the script
+      contract as the caller.  The receipt's logs are the logs of the successful
+      calls in call order.  A call to another pair's token cannot touch this
+      pair: the hook looks a log's pair up by the emitting contract's address. *)
+  Fixpoint batch_calls (t : T) (caller : N) (cs : list bcall) : option (T * list log) :=
+    match cs with
+    | [] => Some (t, [])
+    | BForeign _ _ :: r => batch_calls t caller r
+    | BXfer to x catch :: r =>
+      match call_transfer tk t caller to x with
+      | None => if catch then batch_calls t caller r else None
+      | Some (t1, _, lg) =>
+        match batch_calls t1 caller r with
+        | None => None
+        | Some (t2, lg2) => Some (t2, lg ++ lg2)
+        end
+      end
+    end.
+
+  (** one signed Ethereum transaction to the script contract through
+      ApplyTransaction: all the calls, then the hook over ALL the logs of the
+      receipt, one log at a time, each log converting its own amount *)
+  Definition batch_tx (s : st T) (signer : N) (cs : list bcall) : st T * N :=
+    if negb (has_key signer) then (s, EUnauth) else
+    match batch_calls (tok s) SCRIPT cs with
+    | None => (s, EVMFail)
+    | Some (t1, logs) =>
+      match hook (set_tok s t1) logs with
+      | None => (s, EOther)
+      | Some s2 => (s2, OK)
+      end
+    end.
+
   (** the ICS-20 layer below the middleware: mint the voucher (coin-origin
       denominations only) or release from the channel escrow account [esc] *)
   Definition credit (s : st T) (mint : bool) (esc to : N) (x : Z) : option (st T) :=
@@ -361,6 +406,7 @@ Section Model.
         if N.eqb b MODULE then (s, EOther) else
         if success then (s, OK) else ibc_refund s mint esc b x
     | Timeout mint esc b x => ibc_refund s mint esc b x
+    | Batch a cs => batch_tx s a cs
     end.
 
   Definition run (ops : list op) (s : st T) : st T := fold_left (fun s o => fst (step s o)) ops s.
@@ -543,7 +589,7 @@ Record obs := mkobs {
 Global Instance obs_eq_dec : EqDecision obs.
 Proof. solve_decision. Defined.
 
-Definition actors : list N := [0; 1; 2; 3; 4; 5; 6]%N.
+Definition actors : list N := [0; 1; 2; 3; 4; 5; 6; 7]%N.
 
 Definition observe {T} (tk : token T) (s : st T) (res : N) : obs :=
   mkobs res (reg s) (reg s && en s) (erc20_on s) (hook_on s)
